@@ -17,16 +17,16 @@ pub fn plan(tier: Tier) -> Plan {
         ("two01", 12, 20),
         ("two13", 12, 20),
         ("two9", 12, 20),
-        ("ap", 8, 11),
-        ("small", 7, 9),
-        ("dec", 7, 9),
-        ("off9", 8, 11),
-        ("off11", 8, 11),
-        ("negoff", 9, 12),
-        ("mixed", 7, 9),
-        ("tail", 8, 11),
-        ("tiny", 7, 9),
-        ("large", 7, 9),
+        ("ap", 8, 12),
+        ("small", 8, 11),
+        ("dec", 8, 11),
+        ("off9", 8, 10),
+        ("off11", 8, 10),
+        ("negoff", 9, 11),
+        ("mixed", 8, 11),
+        ("tail", 8, 12),
+        ("tiny", 8, 11),
+        ("large", 8, 11),
     ];
     for (a, q, t) in alphas {
         let d = if tier == Tier::Quick { *q } else { *t };
